@@ -170,6 +170,15 @@ CHECKS = {
          "Exhaustive over schedules for the model only (N<=5, <=3 workers); on the code only the schedules that the perturbed runs "
          "produce are observed; the sequential path of the same engine is the oracle; TLC and the harness projection are trusted.",
          "TLA+ fork-join interleaving spec checked by TLC (safety + liveness); TLC-enumerated configurations run on the real engine under perturbed schedules"),
+ "C04": ("model_checking",
+         "The documented rule grammar is a TLA+ generator with an exact oracle: rules assembled from independently chosen parts are "
+         "rendered to tokens, and the AST they were rendered from is what the parser must return under every layout. TLC checks the "
+         "rendering is injective and enumerates every file reachable by 2-3 part changes, appends, layouts, separators and trailing "
+         "comments; each is parsed through parse_rules, parse_with_modules and parse_rule and compared structurally.",
+         "DESIGN.md §4 C04",
+         "Finite part alphabets (listed in the evidence rule); files of 1-3 rules; four string-opacity defects of the regex/split "
+         "parser are listed known findings matched by metacharacter class; TLC and the harness canonicaliser are trusted.",
+         "TLA+ grammar generator with exact AST oracle; TLC-enumerated files parsed by the real parser (production-combination cover)"),
 }
 
 NOT_YET = "check not built yet in this round (see DESIGN.md §9 build order); no claim is made"
